@@ -566,6 +566,8 @@ impl DcpsDomainParticipant {
             }
         }
 
+        self.domain_participant.content_filtered_topic_list.clear();
+
         self.domain_participant
             .locally_created_topic_list
             .retain(|x| BUILT_IN_TOPIC_NAME_LIST.contains(&x.topic_name.as_str()));
